@@ -188,7 +188,9 @@ def _tok(prefix="zq"):
 
 def _invalid_acl_line(rng, platform):
     tok = _tok()
-    kind = rng.choice(["soup", "broken", "proto", "addr", "number", "remark0", "lenient", "opt-upper", "dup-action", "skipword", "bang"])
+    kind = rng.choice(["soup", "broken", "proto", "addr", "number", "remark0", "lenient", "opt-upper", "dup-action", "skipword", "bang", "percent"])
+    if kind == "percent":  # invalid lines that carry a per cent sign (as log messages pasted into a configuration do)
+        return rng.choice([f"permit ip any any log %SEC-6-{tok}", f"deny ip host 10.0.0.1% any {tok}", f"permit tcp any any 100% {tok}"]), kind, tok
     if kind == "bang":  # a comment line *inside* the section (indented): not an entry, so it has to be reported like any other
         return rng.choice([f"! {tok} note", f"!{tok}"]), kind, tok
     if kind == "skipword":
@@ -282,7 +284,7 @@ def gen_case(rng):
             tok = _tok()
             bad = rng.choice([f"foo {tok}", "host 300.1.1.1", "10.0.0.0 255.0.255.0" if platform == "ios" else "group-object G9",
                               f"range {tok}", "range 10.0.0.5 10.0.0.9", "10.0.0.0/40", "any" if platform == "ios" else f"any{tok}",
-                              f"! {tok} memo"])
+                              f"! {tok} memo", f"object-group network OTHER{tok}" if platform == "ios" else f"object-group ip address OTHER{tok}"])
             lines.append([bad, "invalid", "member", ""])
     name = rng.choice(["G1", "NET-A", "x_1"])
     header = f"object-group network {name}" if platform == "ios" else f"object-group ip address {name}"
